@@ -159,7 +159,7 @@ theorem parityOKModulo_mem {k : List Mismatch} {s a : Table} (h : parityOKModulo
 theorem parityOKModulo_sound (k : List Mismatch) (s a : Table) (h : parityOKModulo k s a = true) :
     ∀ c ∈ s, ∀ m ∈ c.methods,
       (∃ d ∈ a, d.key = c.key ∧ MethodHasTwin d m) ∨
-      (∃ x ∈ k, x.1 = c.key ∧ (x.2.1 = m.name ∨ x.2.1 = "")) := by
+      (∃ x ∈ k, x.1 = c.key ∧ (x.2.1 = m.name ∨ x.2.2.2 = "class-missing")) := by
   intro c hc m hm
   cases hd : findCls a c.key with
   | none =>
@@ -184,6 +184,33 @@ theorem parityOKModulo_sound (k : List Mismatch) (s a : Table) (h : parityOKModu
       simp only [clsMismatches, hd, List.mem_append, List.mem_flatMap]
       exact Or.inr ⟨m, hm, hx⟩
 
+/-- **soundness of the coroutine table**: no violation listed ⇒ no sync method is `async def`, and every async-table
+    method is `async def` iff it is not in the audited plain list -/
+theorem coroutineMismatches_sound (plain : List (String × String)) (s a : Table)
+    (h : coroutineMismatches plain s a = []) :
+    (∀ c ∈ s, ∀ m ∈ c.methods, m.isAsync = false) ∧
+    (∀ d ∈ a, ∀ n ∈ d.methods, n.isAsync = !plain.contains (d.key, n.name)) := by
+  unfold coroutineMismatches at h
+  obtain ⟨h1, h2⟩ := List.append_eq_nil_iff.mp h
+  constructor
+  · intro c hc m hm
+    have := (List.flatMap_eq_nil_iff.mp h1) c hc
+    have hf : c.methods.filter (·.isAsync) = [] := by simpa using this
+    cases hb : m.isAsync with
+    | false => rfl
+    | true =>
+      have : m ∈ c.methods.filter (·.isAsync) := List.mem_filter.mpr ⟨hm, hb⟩
+      rw [hf] at this; simp at this
+  · intro d hd n hn
+    have := (List.flatMap_eq_nil_iff.mp h2) d hd
+    have hf : d.methods.filter (fun n => n.isAsync == plain.contains (d.key, n.name)) = [] := by simpa using this
+    cases hb : (n.isAsync == plain.contains (d.key, n.name)) with
+    | true =>
+      have : n ∈ d.methods.filter (fun n => n.isAsync == plain.contains (d.key, n.name)) := List.mem_filter.mpr ⟨hn, hb⟩
+      rw [hf] at this; simp at this
+    | false =>
+      cases h1 : n.isAsync <;> cases h2 : plain.contains (d.key, n.name) <;> simp_all
+
 theorem parityOKModulo_nil (s a : Table) : parityOKModulo [] s a = parityOK s a := by
   unfold parityOKModulo parityOK
   cases mismatches s a <;> simp
@@ -205,8 +232,9 @@ def PatsQuietOnEmpty (p : Pats) : Prop := p.user [] = false ∧ p.pass [] = fals
 def Quiet (c : Cfg) (s : ASt) : Prop :=
   c.pats.user s.buf = false ∧ c.pats.pass s.buf = false ∧ c.pats.prompt s.buf = false ∧ 1 ≤ s.attempts
 
-/-- the clock never passes the first return interval while the tape is read ("no kick interval elapses") -/
-def NoKick (c : Cfg) (tape : List Ev) : Prop := ∀ b now, Ev.data b now ∈ tape → now ≤ c.interval
+/-- at every EMPTY read (the only place the loop looks at the clock: a read that returned nothing, or — asyncio only — a
+    timed-out poll) the clock has not passed the first return interval.  Nothing is asked of reads that deliver bytes. -/
+def NoKick (c : Cfg) (tape : List Ev) : Prop := ∀ now, Ev.data [] now ∈ tape → now ≤ c.interval
 
 def NoEof (tape : List Ev) : Prop := Ev.eof ∉ tape
 
@@ -282,7 +310,7 @@ theorem runSync_strip (c : Cfg) (hp : PatsQuietOnEmpty c.pats) (tape : List Ev) 
   | nil => intro s _ _; rfl
   | cons e t ih =>
     intro s hq hk
-    have hk' : NoKick c t := fun b now h => hk b now (List.mem_cons_of_mem _ h)
+    have hk' : NoKick c t := fun now h => hk now (List.mem_cons_of_mem _ h)
     by_cases hs : s.out = .pending
     · cases e with
       | eof =>
@@ -293,7 +321,7 @@ theorem runSync_strip (c : Cfg) (hp : PatsQuietOnEmpty c.pats) (tape : List Ev) 
       | data b now =>
         by_cases hb : b = []
         · subst hb
-          have hn : now ≤ c.interval := hk [] now (by simp)
+          have hn : now ≤ c.interval := hk now (by simp)
           have : strip (Ev.data [] now :: t) = strip t := by simp [strip, Ev.isPoll]
           rw [this, runFrom_cons]
           simp only [hs, if_true, stepSync, afterRead_poll c s now hq hn]
@@ -316,7 +344,7 @@ theorem runAsync_strip (c : Cfg) (hp : PatsQuietOnEmpty c.pats) (tape : List Ev)
   | nil => intro s _ _; rfl
   | cons e t ih =>
     intro s hq hk
-    have hk' : NoKick c t := fun b now h => hk b now (List.mem_cons_of_mem _ h)
+    have hk' : NoKick c t := fun now h => hk now (List.mem_cons_of_mem _ h)
     by_cases hs : s.out = .pending
     · cases e with
       | eof =>
@@ -326,7 +354,7 @@ theorem runAsync_strip (c : Cfg) (hp : PatsQuietOnEmpty c.pats) (tape : List Ev)
       | data b now =>
         by_cases hb : b = []
         · subst hb
-          have hn : now ≤ c.interval := hk [] now (by simp)
+          have hn : now ≤ c.interval := hk now (by simp)
           have : strip (Ev.data [] now :: t) = strip t := by simp [strip, Ev.isPoll]
           rw [this, runFrom_cons]
           simp only [hs, if_true, stepAsync, afterRead_poll c s now hq hn]
@@ -366,6 +394,10 @@ theorem polled_strip {s a : List Ev} (h : Polled s a) : strip s = strip a := by
   | nil => rfl
   | keep e _ ih => simp only [strip, List.filter] at *; cases (!e.isPoll) <;> simp [ih]
   | poll now _ ih => simp only [strip, List.filter, Ev.isPoll] at *; simpa using ih
+
+/-- a tape on which every read delivers bytes (the blocking sync `read()`) satisfies `NoKick` whatever the clock says -/
+theorem noKick_of_no_empty_read (c : Cfg) (t : List Ev) (h : ∀ now, Ev.data [] now ∉ t) : NoKick c t :=
+  fun now hm => absurd hm (h now)
 
 theorem quiet_init (c : Cfg) (hp : PatsQuietOnEmpty c.pats) : Quiet c {} := by
   obtain ⟨a, b, d⟩ := hp
